@@ -76,7 +76,13 @@ func (r *Executor) Do(release *v1beta1.BatchRelease) (reconcile.Result, *v1beta1
 	newStatus := getInitializedStatus(&release.Status)
 	workloadController, err := r.getReleaseController(release, newStatus)
 	if err != nil || workloadController == nil {
-		return reconcile.Result{}, nil, nil
+		// no release controller can be built for this workload reference, so nothing was ever taken under control;
+		// a BatchRelease that is being deleted has nothing to clean up and must not keep its finalizer forever.
+		// Always hand a status back: the caller writes and logs it.
+		if err != nil && !release.DeletionTimestamp.IsZero() {
+			newStatus.Phase = v1beta1.RolloutPhaseCompleted
+		}
+		return reconcile.Result{}, newStatus, nil
 	}
 
 	stop, result, err := r.syncStatusBeforeExecuting(release, newStatus, workloadController)
